@@ -150,6 +150,11 @@ func (c *Ctx) writerModels() error {
 			return err
 		}
 	}
+	// the mechanism with the position of the last sync marker as extra state (the design question behind
+	// "a Flush with nothing new writes only the marker": positions are relative to a buffer that slides)
+	if err := c.ModelCheck("WriterMechSync", "MC_WriterMechSync.cfg", 15*time.Minute); err != nil {
+		return err
+	}
 	// the mechanism model refines the contract: every call it completes is judged by the contract's clauses
 	for _, cfg := range []string{"MC_WriterRefine_dyn.cfg", "MC_WriterRefine_huff.cfg"} {
 		if err := c.ModelCheck("WriterRefine", cfg, 15*time.Minute); err != nil {
